@@ -322,6 +322,11 @@ class WorkflowRecovery:
             if stage.status == WorkflowStatus.RUNNING:
                 running_tasks = [t for t in stage.tasks if t.status == WorkflowStatus.RUNNING]
                 not_started_tasks = [t for t in stage.tasks if t.status == WorkflowStatus.NOT_STARTED]
+                # A task in REDIRECT has queued a JumpToStage that will reset or
+                # finalise this stage; starting the next task here would run it
+                # alongside (and then be clobbered by) the pending jump.
+                if any(t.status == WorkflowStatus.REDIRECT for t in stage.tasks):
+                    continue
 
                 if running_tasks:
                     for task in running_tasks:
